@@ -1,6 +1,6 @@
 (** C01 — the output stage over ALL binary32 values (Flocq): every written sample is a finite
-    number in [-1, 1] unless the bus frame is NaN; the mono sample is the mean; extra channels
-    are +0; a NaN on the bus gets through (so "always finite" reduces to "the bus is never NaN"). *)
+    number in [-1, 1] WHATEVER the bus frame is (NaN -> 0, +-inf -> +-1); the mono sample is the
+    mean; extra channels are +0.  Regression: the stage before the repair passed NaN. *)
 From Coq Require Import ZArith List Bool Reals Lra Lia Floats.SpecFloat.
 From Flocq Require Import Core IEEE754.BinarySingleNaN.
 From KV Require Import Base.IEEE C01.Model.
@@ -132,17 +132,40 @@ Qed.
 
 Lemma unit_zero : unit32 zero32 = true. Proof. vm_compute. reflexivity. Qed.
 
+(** ** [finite_clamped]: for EVERY binary32 value (NaN and the infinities included) the result is a
+    finite number in [-1, 1]; values already there are unchanged *)
+Lemma finite_clamped_ok (x : f32) : unit32 (finite_clamped x) = true.
+Proof.
+  unfold finite_clamped. destruct (isnan32 x) eqn:N; [exact unit_zero|]. apply clamp_unit_ok. exact N.
+Qed.
+Lemma unit_not_nan (x : f32) : unit32 x = true -> isnan32 x = false.
+Proof. destruct x; try reflexivity. cbn. discriminate. Qed.
+Lemma finite_clamped_id (x : f32) : unit32 x = true -> finite_clamped x = x.
+Proof.
+  intro H. unfold finite_clamped. rewrite (unit_not_nan x H). apply clamp_unit_id. exact H.
+Qed.
+Lemma finite_clamped_nan : finite_clamped B754_nan = zero32.
+Proof. reflexivity. Qed.
+Lemma finite_clamped_inf (s : bool) : finite_clamped (B754_infinity s) = if s then m1_32 else p1_32.
+Proof. destruct s; vm_compute; reflexivity. Qed.
+Lemma finite_clamped_special :
+  finite_clamped B754_nan = zero32 /\
+  finite_clamped (B754_infinity false) = p1_32 /\ finite_clamped (B754_infinity true) = m1_32.
+Proof. repeat split; vm_compute; reflexivity. Qed.
+Lemma finite_clamped_non_nan (x : f32) : isnan32 x = false -> finite_clamped x = clamp_unit x.
+Proof. intro N. unfold finite_clamped. rewrite N. reflexivity. Qed.
+
 (** ** the output stage *)
 Lemma out_stage_length n l r : length (out_stage n l r) = n.
 Proof.
   destruct n as [|[|n]]; cbn; try reflexivity. rewrite repeat_length. reflexivity.
 Qed.
 
+(** unconditional: whatever the bus frame is *)
 Lemma out_stage_wellformed (n : nat) (l r : f32) :
-  isnan32 l = false -> isnan32 r = false ->
   Forall (fun x => unit32 x = true) (out_stage n l r).
 Proof.
-  intros Nl Nr. pose proof (clamp_unit_ok l Nl) as Hl. pose proof (clamp_unit_ok r Nr) as Hr.
+  pose proof (finite_clamped_ok l) as Hl. pose proof (finite_clamped_ok r) as Hr.
   destruct n as [|[|n]]; cbn [out_stage].
   - constructor.
   - constructor; [|constructor]. apply mean_unit; assumption.
@@ -150,19 +173,28 @@ Proof.
     apply Forall_forall. intros x Hx. apply repeat_spec in Hx. subst x. exact unit_zero.
 Qed.
 
-(** layout: one channel = the mean of the clamped left and right; two or more = clamped left,
-    clamped right, then exact (positive) zeros *)
+(** layout: one channel = the mean of the two [finite_clamped] sides; two or more = left, right,
+    then exact (positive) zeros *)
 Lemma out_stage_layout (n : nat) (l r : f32) :
-  out_stage 1 l r = [div32 (add32 (clamp_unit l) (clamp_unit r)) two32] /\
-  out_stage (S (S n)) l r = clamp_unit l :: clamp_unit r :: repeat zero32 n.
+  out_stage 1 l r = [div32 (add32 (finite_clamped l) (finite_clamped r)) two32] /\
+  out_stage (S (S n)) l r = finite_clamped l :: finite_clamped r :: repeat zero32 n.
 Proof. split; reflexivity. Qed.
 
-(** a NaN on the bus reaches the device: the well-formedness of the output is exactly the
-    absence of NaN on the mixer bus *)
-Lemma out_stage_nan_gets_through (r : f32) :
-  out_stage 2 B754_nan r = [B754_nan; clamp_unit r] /\ hd zero32 (out_stage 1 B754_nan r) = B754_nan.
+(** on a NaN-free bus frame the repaired stage writes what the old one wrote *)
+Lemma out_stage_agrees_with_old (n : nat) (l r : f32) :
+  isnan32 l = false -> isnan32 r = false -> out_stage n l r = out_stage_old n l r.
 Proof.
-  split; [reflexivity|]. cbn. unfold add32, fadd. destruct (clamp_unit r); reflexivity.
+  intros Nl Nr. unfold out_stage, out_stage_old. rewrite !finite_clamped_non_nan by assumption. reflexivity.
+Qed.
+
+(** regression (F5, F29, F33, F36-F39 as seen at the device): the OLD stage let a NaN on the bus
+    through; the repaired one writes +0 there (and the mean of 0 and the other side for one channel) *)
+Lemma out_stage_nan_regression (r : f32) :
+  (out_stage_old 2 B754_nan r = [B754_nan; clamp_unit r] /\ hd zero32 (out_stage_old 1 B754_nan r) = B754_nan) /\
+  (out_stage 2 B754_nan r = [zero32; finite_clamped r] /\
+   out_stage 1 B754_nan r = [div32 (add32 zero32 (finite_clamped r)) two32]).
+Proof.
+  split; split; try reflexivity; cbn; unfold add32, fadd; destruct (clamp_unit r); reflexivity.
 Qed.
 
 (** ** layout of a whole callback: however the device buffer is cut into internal chunks, every
@@ -204,13 +236,11 @@ Proof.
   cbn [flat_map]. rewrite app_length, out_stage_length, IH. cbn [length]. lia.
 Qed.
 
-(** every sample of a callback is a finite number in [-1, 1], provided no NaN is on the bus *)
+(** every sample of a callback is a finite number in [-1, 1], whatever is on the bus *)
 Lemma render_wellformed (n b : nat) (bus : list (f32 * f32)) :
-  (0 < b)%nat ->
-  Forall (fun '(l, r) => isnan32 l = false /\ isnan32 r = false) bus ->
-  Forall (fun x => unit32 x = true) (render n b bus).
+  (0 < b)%nat -> Forall (fun x => unit32 x = true) (render n b bus).
 Proof.
-  intros Hb H. rewrite render_is_per_frame by exact Hb.
-  induction H as [|[l r] bus [Nl Nr] Hbus IH]; [constructor|].
-  cbn [flat_map]. apply Forall_app. split; [apply out_stage_wellformed; assumption|exact IH].
+  intros Hb. rewrite render_is_per_frame by exact Hb.
+  induction bus as [|[l r] bus IH]; [constructor|].
+  cbn [flat_map]. apply Forall_app. split; [apply out_stage_wellformed|exact IH].
 Qed.
